@@ -45,11 +45,15 @@ PLAIN  == <<80, 76, 65, 73, 78>>
 -----------------------------------------------------------------------------
 (* Vectors *)
 DgVector(d) ==
-  LET r == Parse(d) IN
+  LET r == Parse(d)
+      \* alt: the wrong-offset reading (names the mechanism of a long-form-small-length finding)
+      alt == IF Class(d) = "long-form-small-length" /\ WrongOffsetParse(d).ok
+             THEN [ok |-> TRUE, pkt |-> WrongOffsetParse(d).pkt] ELSE [ok |-> FALSE, pkt |-> Blank]
+  IN
   IF r.ok
   THEN [d |-> d, cls |-> Class(d), pcls |-> PanicClass(d), ok |-> TRUE, hl |-> r.hl, lenf |-> r.lenf, pkt |-> r.pkt,
-        cb |-> CanonBody(d)]
-  ELSE [d |-> d, cls |-> Class(d), pcls |-> PanicClass(d), ok |-> FALSE, why |-> r.why]
+        cb |-> CanonBody(d), alt |-> alt]
+  ELSE [d |-> d, cls |-> Class(d), pcls |-> PanicClass(d), ok |-> FALSE, why |-> r.why, alt |-> alt]
 
 PkVector(p) == [p |-> p, bytes |-> Encode(p), cls |-> PanicClass(Encode(p))]
 
@@ -123,7 +127,7 @@ NextPkt == FALSE /\ UNCHANGED vars
 Inv_C21 == Prop_C21(x) /\ LegalPkt(x)      \* every vector is a legal packet and round-trips in the spec
 
 ASSUME ShortLaws == Prop_ShortBijection(ShortIds) /\ Prop_ShortBijectionNames(Byte)
-ASSUME ShortInj  == \A i, j \in ShortPairIds : DecShort(i) = DecShort(j) => i = j
+ASSUME ShortInj  == Prop_ShortInjective(ShortPairIds)
 
 -----------------------------------------------------------------------------
 (* tree *)
